@@ -152,6 +152,13 @@ class ChainBuild(Suite):
             dict(classes=[K(0, 'Features'), K(1, 'User', meta_inputs=[{'name': 'features'}])],
                  files={'t.json': {'tasks': ['@M.Features']}, 'u.json': {'tasks': ['@M.User']}},
                  base={'name': 'main', 'data': {'uses': ['t.json as pretrain', 'u.json as train']}}, context=None),
+            # an optional input whose short name matches several tasks is an ambiguity, not an absent input
+            dict(classes=[dict(K(0, 'Xa', group='x'), name='a'), dict(K(1, 'Ya', group='y'), name='a'),
+                          dict(K(2, 'Dep', param_inputs=[dict(ref={'name': 'a'}, default=[99])]), name='dep')],
+                 files={}, base={'name': 'm', 'data': {'tasks': ['@M.*']}}, context=None),
+            dict(classes=[dict(K(0, 'Xa', group='x'), name='a'),
+                          dict(K(2, 'Dep', param_inputs=[dict(ref={'name': 'b'}, default=[99])]), name='dep')],
+                 files={}, base={'name': 'm', 'data': {'tasks': ['@M.*']}}, context=None),
             # an import string names exactly one class, also when another class of the module has that name as a prefix
             dict(classes=[K(0, 'Ab'), K(1, 'A'), K(2, 'Abc')], files={}, base={'name': 'm', 'data': {'tasks': ['@M.A']}}, context=None),
             dict(classes=[K(0, 'Ab'), K(1, 'A'), K(2, 'Abc')], files={},
